@@ -77,8 +77,12 @@ def sweep(o, ost, kids, rnd, n_grid):
     top = max(Cs) * 1.2
     ws.update(round(top * i / n_grid, 2) for i in range(n_grid))
     ws = sorted(w for w in ws if w >= 0)
-    rows = [dict(person(year, w, ost, ges_pflegev_hat_kinder=kids), p_id=i, hh_id=i) for i, w in enumerate(ws)]
-    return ws, popgen.to_frame(rows), dict(G=G, U=U, C_pension=Cs[0], C_health=Cs[1])
+    rows = [dict(person(year, w, ost, ges_pflegev_hat_kinder=bool(kids)), p_id=i, hh_id=i) for i, w in enumerate(ws)]
+    df = popgen.to_frame(rows)
+    if not isinstance(kids, bool):
+        # the number of children under 25 relevant for long-term care insurance, supplied as data (C05)
+        df["ges_pflegev_anz_kinder_bis_24"] = int(kids)
+    return ws, df, dict(G=G, U=U, C_pension=Cs[0], C_health=Cs[1])
 
 
 def check_shape(ws, vals, name, bnd, res, o, ost, stats, flat_from, rate_hint=None):
@@ -127,7 +131,7 @@ def run(ctx, res):
     directed = [int(ob["name"].split("_")[2]) for ob in out if not ob["ok"]]
     for o in sorted(set(directed[:4] + dates)):
         for ost in (False, True):
-            for kids in ((True,) if ctx.tier == "quick" else (True, False)):
+            for kids in ((True, 5) if ctx.tier == "quick" else (True, False, 2, 5, 6)):
                 try:
                     ws, df, bnd = sweep(o, ost, kids, rnd, 120 if ctx.tier == "quick" else 600)
                     tg = [t for trip in ALL_BRANCHES.values() for t in trip if t in metam.dag_for(o)["nodes"]] + ["in_gleitzone"]
@@ -152,7 +156,7 @@ def run(ctx, res):
                                                       dict(kind="shares", date=impl.iso(o), wage=w, employee=float(outp[an].iloc[i]), employer=float(outp[ag].iloc[i]), total=t), True)
                                     break
                 # model chain == implementation on the sweep (pension, unemployment)
-                if kids and (ctx.tier == "thorough" or o in (impl.ordinal("2024-01-01"), impl.ordinal("2019-01-01"))):
+                if kids is True and (ctx.tier == "thorough" or o in (impl.ordinal("2024-01-01"), impl.ordinal("2019-01-01"))):
                     for bname, _rate, _ceil, tgt in BRANCHES:
                         sub = ws[:: max(1, len(ws) // 60)]
                         mv = model_chain(o, ost, tgt, sub)
